@@ -53,7 +53,8 @@ fn byt_content(len: usize) -> Vec<u8> {
 fn str_content(len: usize) -> String {
     // multi-byte carriers: a é € 🦀, padded with 'a' to reach the exact length
     let mut s = String::new();
-    let pieces = ["a", "\u{e9}", "\u{20ac}", "\u{1F980}", "b"];
+    // (continuation bytes at both ends of 0x80..=0xBF: U+00C0 = C3 80, U+07FF = DF BF, U+2013 = E2 80 93, U+FFFF = EF BF BF)
+    let pieces = ["a", "\u{e9}", "\u{20ac}", "\u{1F980}", "b", "\u{c0}", "\u{7ff}", "\u{2013}", "\u{ffff}"];
     let mut i = 0;
     while s.len() < len {
         let p = pieces[i % pieces.len()];
